@@ -50,3 +50,23 @@ pub static S2_DEF: Def = Def {
 };
 corpus_impl!(S2, bytes, S2_DEF, |t| match t { S2::DashDash => 1, S2::Minus => 2, S2::Letter => 3, S2::Arrow => 4 }, |_e| 0, |_x| (0, true, 0, 0));
 pub fn s2_skip_byte(b: u8) -> bool { b == b'\n' || b == b'-' }
+
+// ---- S3: a skip pattern that is a proper prefix of a longer token: when the longer attempt fails the lexer falls back to
+// the skip match and must restart at the END OF THE SKIP, not at the position the failed attempt had reached
+#[derive(Logos, Debug, PartialEq, Clone, Copy)]
+#[logos(utf8 = false)]
+#[logos(skip " +")]
+pub enum S3 {
+    #[regex(" *\r\n")] Newline,
+    #[regex("[a-z]+")] Word,
+}
+pub static S3_DEF: Def = Def {
+    name: "S3", utf8: false, decide: no_callbacks, log_callbacks: false, default_err: plain_default,
+    pats: &[
+        Pat { p: P::Plus(&P::Lit(b" ")), prio: 2, act: Act::Skip },
+        Pat { p: P::Cat(&[P::Star(&P::Lit(b" ")), P::Lit(b"\r\n")]), prio: 4, act: Act::Tok(1) },
+        Pat { p: P::Plus(&LOWER), prio: 2, act: Act::Tok(2) },
+    ],
+};
+corpus_impl!(S3, bytes, S3_DEF, |t| match t { S3::Newline => 1, S3::Word => 2 }, |_e| 0, |_x| (0, true, 0, 0));
+pub fn s3_skip_byte(b: u8) -> bool { b == b' ' }
